@@ -94,6 +94,7 @@ def unit():
 '''}),
         },
         extra_items=buf_items('BufDecryptor', 'decrypt', False) + [
+            Sel('impl AsyncStreamCipher for Decryptor'),
             Sel('fn xor_set2', fns={'xor_set2': FnC(external_body=True, props=('C03',), kani=('xor_set',), note=XOR_SET_NOTE, ensures=[
                 ('out', ('C03',), '''final(buf1)@.len() == old(buf1)@.len() && final(buf2)@.len() == old(buf2)@.len()
             && forall |i: int| 0 <= i < old(buf1)@.len() && i < old(buf2)@.len() ==>
@@ -108,10 +109,11 @@ def unit():
             ] + K.frame_iv_backend(), stmts={'0': 'let ghost x0 = block.in_val()@;', 'end': K.BACKEND_PROOF_1}),
         },
         extra_items=[
+            Sel('impl AsyncStreamCipher for Encryptor'),
             Sel('fn xor_set1', fns={'xor_set1': FnC(external_body=True, props=('C03',), kani=('xor_set',), note=XOR_SET_NOTE, ensures=[
                 ('out', ('C03',), '''final(buf1)@.len() == old(buf1)@.len() && final(buf2)@.len() == old(buf2)@.len()
             && forall |i: int| 0 <= i < old(buf1)@.len() && i < old(buf2)@.len() ==>
                 #[trigger] final(buf1)@[i] == old(buf1)@[i] ^ old(buf2)@[i] && #[trigger] final(buf2)@[i] == old(buf1)@[i] ^ old(buf2)@[i]''')])})])
     buf = Mod('cfb_buf', 'cfb-mode/src/encrypt/buf.rs', uses='use super::cfb_encrypt::xor_set1;',
               items=buf_items('BufEncryptor', 'encrypt', True))
-    return Unit('cfb', prelude=K.PRELUDE_BLOCK, spec=['steps.rs'], mods=K.DEPS() + [dec, enc, buf])
+    return Unit('cfb', prelude=K.PRELUDE_BLOCK, spec=['steps.rs', 'wrapper_defs.rs'], mods=K.DEPS(wrapper=True) + [dec, enc, buf])
